@@ -92,6 +92,15 @@ def make_pool(cls_name, mod, size=3):
             exec(SUBCLASS_SRC, m.__dict__)
             sys.modules["ctl_subpool"] = m
         return m.SubPool(pool_size=size, name="ctl")
+    if cls_name == "SubPool2":
+        import types
+        m = sys.modules.get("ctl_subpool2")
+        if m is None or getattr(m, "_Base", None) is not SimpleTaskPool:
+            m = types.ModuleType("ctl_subpool2")
+            m.SimpleTaskPool = m._Base = SimpleTaskPool
+            exec(SUBCLASS2_SRC, m.__dict__)
+            sys.modules["ctl_subpool2"] = m
+        return m.SubPool2(mod.work, args=("a",), kwargs={"k": 1}, pool_size=size, name="ctl")
     raise ValueError(cls_name)
 
 
@@ -123,7 +132,36 @@ class SubPool(TaskPool):
         """Not public."""
     # overrides without a docstring of their own: the description is inherited (inspect.getdoc)
     def lock(self) -> None:
+        self._lock_count = getattr(self, "_lock_count", 0) + 1
         super().lock()
+    @property
+    def lock_count(self) -> int:
+        """How often this pool has been locked (the override above counts)."""
+        return getattr(self, "_lock_count", 0)
+    @staticmethod
+    def version() -> str:
+        """A public static method."""
+        return "sub-1.0"
+'''
+
+# a second subclass, in a module WITHOUT postponed annotations: its annotations are evaluated objects (typing generics ...)
+SUBCLASS2_SRC = '''
+from typing import Any, Iterable
+class SubPool2(SimpleTaskPool):
+    """A pool whose extra members carry evaluated annotations."""
+    def feed(self, items: Iterable[Any], flag: bool = False) -> int:
+        """Counts the items of a literal container."""
+        return len(list(items)) + (100 if flag else 0)
+    def trace(self, *, function: str = "f", self_: int = 0) -> str:
+        """Keyword-only parameters with awkward names."""
+        return f"{function}/{self_}"
+    @property
+    def ratio(self) -> float:
+        """A float property that can be set."""
+        return getattr(self, "_ratio", 0.5)
+    @ratio.setter
+    def ratio(self, new_ratio: float) -> None:
+        self._ratio = new_ratio
 '''
 
 
